@@ -52,7 +52,7 @@ def main():
             if f.endswith('.diff') or f == 'notes.json':
                 shutil.copy(os.path.join(src, f), os.path.join(dst, f))
         args = [name]
-    sets = args or sorted(os.listdir(EQ))
+    sets = args or sorted(s for s in os.listdir(EQ) if not s.startswith('_'))
     paths = []
     for s in sets:
         d = os.path.join(EQ, s)
